@@ -146,7 +146,40 @@ def do_request(world, kind, side, name, headers):
     return gw.call_wsgi(app, rq) if side == "wsgi" else gw.call_asgi(app, rq)
 
 
+class _Zone:
+    """Process time zone for the duration of one case (HTTP dates are GMT whatever the local zone is)."""
+
+    def __init__(self, tz):
+        self.tz = tz
+
+    def __enter__(self):
+        import time as _t
+
+        self.old = os.environ.get("TZ")
+        if self.tz:
+            os.environ["TZ"] = self.tz
+            _t.tzset()
+
+    def __exit__(self, *exc):
+        import time as _t
+
+        if self.tz:
+            if self.old is None:
+                os.environ.pop("TZ", None)
+            else:
+                os.environ["TZ"] = self.old
+            _t.tzset()
+
+
 def oracle(case) -> Result:
+    with _Zone(case.get("tz")):
+        res = _oracle(case)
+    if case.get("tz"):
+        res.label(f"tz={case['tz']}")
+    return res
+
+
+def _oracle(case) -> Result:
     r = Result()
     kind = case["kind"]
     world = World(case.get("nfiles", 1), case.get("frac"))
@@ -280,7 +313,7 @@ def history_case(draw):
     ops = draw(st.lists(op, min_size=2, max_size=13))
     first = ["get", 0, draw(side), False]
     return {"kind": draw(st.sampled_from(["files", "pages"])), "nfiles": draw(st.sampled_from([1, 1, 2])), "ops": [first] + ops,
-            "frac": draw(st.sampled_from([0.0, 0.0, 0.25, 0.5, 0.999]))}
+            "frac": draw(st.sampled_from([0.0, 0.0, 0.25, 0.5, 0.999])), "tz": draw(st.sampled_from([None, None, "EST5EDT,M3.2.0,M11.1.0", "CST-8", "HST10", "NPT-5:45"]))}
 
 
 def grid_cases():
@@ -297,6 +330,10 @@ def grid_cases():
                                 ops.append([mod, 0])
                             ops.append(["cond", 0, side, 0, form])
                             yield {"kind": kind, "nfiles": 1, "ops": ops, "frac": frac}
+                            if frac == 0.25 and form in ("lastmod", "both") and dt in (0, 2, 3600):
+                                # the same under local zones west and east of Greenwich
+                                for tz in ("EST5", "CST-8"):
+                                    yield {"kind": kind, "nfiles": 1, "ops": ops, "frac": frac, "tz": tz}
 
 
 def run(rec, only=None):
